@@ -123,6 +123,9 @@ def worlds(tier):
     ws.append({"name": "chain2-periodic-with-flags", "kind": "workload", "shape": "chain2", "policy": "periodic", "variance": None, "flags": True, "split": 5, "weight": 10})
     ws.append({"name": "chain2-fixed-replicated", "kind": "workload", "shape": "chain2", "policy": "fixed", "variance": [0, 0], "flags": True, "replication": 2, "split": 5, "weight": 10})
     ws.append({"name": "fork3-slo-nodes-with-override_slo-flag", "kind": "workload", "shape": "fork-slo", "policy": "fixed", "variance": None, "flags": True, "override_slo": True, "split": 6, "weight": 20})
+    ws.append({"name": "chain2-closed-loop-with-flags-bounds", "kind": "workload", "shape": "chain2", "policy": "closed_loop", "variance": [0, 50], "flags": True, "split": 6, "weight": 20,
+               "fixed_loop": [3, 2]})
+    ws.append({"name": "fork3-two-strategy-profiles-fixed", "kind": "workload", "shape": "fork", "policy": "fixed", "variance": None, "split": 5, "weight": 10})
     ws.append({"name": "workers", "kind": "workers", "split": 4})
     if tier == "thorough":
         ws.append({"name": "cond4-closed-loop", "kind": "workload", "shape": "cond", "policy": "closed_loop", "variance": [0, 50], "split": 7, "weight": 60})
@@ -136,6 +139,8 @@ def graph_nodes(env, shape, tag=""):
         return [{"name": "A", "work_profile": "P0", "children": ["B"]}, {"name": "B", "work_profile": "P1"}]
     if shape == "fork-slo":
         return [{"name": "A", "work_profile": "P0", "children": ["B", "C"]}, {"name": "B", "work_profile": "P1", "slo": S("B")}, {"name": "C", "work_profile": "P0"}]
+    if shape == "fork":
+        return [{"name": "A", "work_profile": "P0", "children": ["B", "C"]}, {"name": "B", "work_profile": "P1"}, {"name": "C", "work_profile": "P0"}]
     if shape == "cond":
         return [{"name": "C", "work_profile": "P0", "conditional": True, "children": ["a", "b"]}, {"name": "a", "work_profile": "P1", "probability": 0.25, "children": ["J"]},
                 {"name": "b", "work_profile": "P0", "probability": 0.75, "children": ["J"]}, {"name": "J", "work_profile": "P1", "terminal": True}]
@@ -151,8 +156,11 @@ def profiles(env):
             {"name": "P1", "execution_strategies": [strat("P1s0", ["GPU:any"])]}]
 
 
-def policy_fields(env, pol, tag=""):
+def policy_fields(env, pol, tag="", fixed_loop=None):
     d = {"release_policy": pol}
+    if fixed_loop:  # (invocations, concurrency) given: one shape of closed loop, no start offset
+        d.update(invocations=fixed_loop[0], concurrency=fixed_loop[1])
+        return d
     if pol in ("fixed", "periodic"):
         d["period"] = env.int(f"period{tag}", 1, 2 ** 20)
     if pol in ("fixed", "poisson", "gamma", "closed_loop"):
@@ -215,7 +223,7 @@ def run_workload(env, w):
         g1 = dict({"name": "G1", "graph": graph_nodes(env, "fork-slo", "g1")}, **policy_fields(env, w.get("second_policy", pol), "1"))
         graphs = [g0, g1]
     else:
-        g = dict({"name": "G0", "graph": graph_nodes(env, shape)}, **policy_fields(env, pol))
+        g = dict({"name": "G0", "graph": graph_nodes(env, shape)}, **policy_fields(env, pol, fixed_loop=w.get("fixed_loop")))
         if w["variance"] is not None:
             g["deadline_variance"] = list(w["variance"])
         graphs = [g]
@@ -340,9 +348,22 @@ def run_workload(env, w):
                 env.require("C19:fresh-isomorphic-copies", sand(*conds), tg.name)
             # deadline = release + critical path (or SLOs on it) stretched within variance and bounds
             cp = jg.completion_time.time
+            if w["shape"] == "fork" and jgname == names[0]:
+                # independent critical path: the heaviest source-to-sink path, every job weighed by its slowest strategy
+                slow = {}
+                for pr in profs:
+                    rts = [st["runtime"] for st in pr["execution_strategies"]]
+                    m_ = rts[0]
+                    for r_ in rts[1:]:
+                        m_ = pysym.site(r_ > m_, r_, m_)
+                    slow[pr["name"]] = m_
+                by = {n["name"]: n for n in g["graph"]}
+                pa = slow[by["A"]["work_profile"]] + slow[by["B"]["work_profile"]]
+                pb = slow[by["A"]["work_profile"]] + slow[by["C"]["work_profile"]]
+                env.require("C19:critical-path-is-the-heaviest-path", cp == pysym.site(pa > pb, pa, pb), f"{jgname}: completion time {cp}")
             vmin, vmax = var
             lo_b, hi_b = (flags.min_deadline, flags.max_deadline) if flags else (0, sys.maxsize)
-            for tg in tgs[:2]:
+            for tg in (tgs[:2] + [x for x in tgs[-2:] if x not in tgs[:2]]):  # the first ones and (closed loop) the ones released on a completion
                 for t in tg.get_nodes():
                     d = t.deadline.time - tg.release_time.time
                     lo = cp + cp * vmin / 100
